@@ -1,0 +1,17 @@
+//go:build verif
+
+// Contracts for deductive verification (read by /verif/govc). Comment-only: this file adds no code.
+package types
+
+// A genesis file that validates can be imported: InitGenesis dereferences gs.Pool
+//@ func (GenesisState) Validate() (err)
+//@   modifies nothing
+//@   ensures [C18.validate.pool] [C02.validate.pool] err == nil ==> gs.Pool != nil
+//@   loop L1 invariant -1 <= rangeindex
+//@   loop L2 invariant -1 <= rangeindex
+
+// parameter validation goes through interface{}-typed validators (type assertions: outside the verified subset); nothing is
+// assumed about its result except that it does not change state
+//@ func (Params) Validate() (err)
+//@   trusted not verified: validator functions take interface{} and use type assertions
+//@   modifies nothing
